@@ -1858,7 +1858,7 @@ class SpaceUpdater(SharedSpaceOperations):
         self._instructions.append(
             Instruction(self._update_derived_space, (node,))
         )
-        for _, v in nx.edge_bfs(self.manager._graph, node):
+        for v in list(self._graph.ordered_subs(node))[1:]:   # Bases first
             self._instructions.append(
                 Instruction(self._update_derived_space, (v,))
             )
